@@ -153,6 +153,11 @@ def case_behaviour(seed, out, spec):
                           '%s given in %s form (%r): %s' % (setting, form, res.get('given'), res.get('why')),
                           witness, replay)
             return
+    if setting == 'POLL_TIMER':
+        pc, pe = results['code']['behaviour']['polls_continue'], results['env']['behaviour']['polls_continue']
+        if not pc and not pe:
+            out.inconc('C19 POLL_TIMER: timer alive but silent within the watchdog in both forms')
+            return
     if results['code'].get('behaviour') != results['env'].get('behaviour'):
         out.violation('environment:%s-differs' % setting.lower(),
                       '%s behaves differently in code (%r) and as DEEP_ variable (%r)' % (
@@ -249,14 +254,8 @@ def child_behaviour(arg):
             out['behaviour'] = {'timer_alive': alive, 'polls_continue': ok}
             if not alive:
                 out.update(ok=False, why='the poll timer thread is dead')
-            elif not ok:
-                return {'inconclusive': 'timer alive but fewer than %d polls within the watchdog' % want}
-            else:
-                # cadence in logical terms: gaps between polls are near the interval, not near another setting's
-                ts = [p[2] for p in srv.polls[1:1 + want]]
-                gaps = [b - a for a, b in zip(ts, ts[1:])]
-                if max(gaps) > interval * 4 + 1.0 or min(gaps) < interval * 0.25:
-                    out.update(ok=False, why='poll gaps %s do not follow the interval %s' % (gaps, interval))
+            # whether polls keep coming is judged by comparing the two forms (same machine, same watchdog), never by
+            # wall-clock gaps: see case_behaviour
         elif setting == 'SERVICE_URL':
             out['behaviour'] = {'polled': True}
         elif setting == 'AUTH':
